@@ -39,7 +39,7 @@ MANAGER_ONESTEP = dict(harness='c05_manager_steps', name='c05_manager_onestep',
 MANAGER_LOOP = dict(harness='c05_manager_loop',
                     covers=['c05l.dial.accepted', 'c05l.dial.refused', 'c05l.open.opened', 'c05l.open.failed', 'c05l.dial.established', 'c05l.dial.failed',
                             'c05l.inbound.admitted', 'c05l.inbound.established', 'c05l.closed', 'c05l.user.established', 'c05l.user.closed',
-                            'c05l.user.dial-failure', 'c05l.user.open-failure', 'c05l.accept-rollback', 'c05l.negotiate-refused'],
+                            'c05l.user.dial-failure', 'c05l.user.open-failure', 'c05l.protocol.dial-failure', 'c05l.accept-rollback', 'c05l.negotiate-refused'],
                     min_paths=1000, split={'quick': 5, 'thorough': 6}, params={'quick': {'steps': 3}, 'thorough': {'steps': 4}},
                     conform={'quick': 60, 'thorough': 500}, nvals=30)
 
